@@ -57,11 +57,16 @@ type History struct {
 	Base        uint32 `json:"base"` // window base (only used to order sequences; 0 for unordered histories)
 	Windowed    bool   `json:"windowed"`
 	Ops         []Op   `json:"ops"`
+	// Reenter: what the Stream does from inside every top-level ReassemblyComplete callback (calls made
+	// from a callback are calls of the history like any other): "" nothing, "maintain", "pushfresh" (a
+	// non-terminating record of a sequence used nowhere else), "pusheoe" (an EOE for the sequences of the
+	// history in turn; EOE records are never delivered themselves).
+	Reenter string `json:"reenter,omitempty"`
 }
 
 func (h History) Describe() string {
 	var b strings.Builder
-	fmt.Fprintf(&b, "NewReassembler(maxInFlight=%d, timeout=%v) base=%d windowed=%v\n", h.MaxInFlight, time.Duration(h.TimeoutNs), h.Base, h.Windowed)
+	fmt.Fprintf(&b, "NewReassembler(maxInFlight=%d, timeout=%v) base=%d windowed=%v stream re-enters with %q\n", h.MaxInFlight, time.Duration(h.TimeoutNs), h.Base, h.Windowed, h.Reenter)
 	for i, o := range h.Ops {
 		switch o.K {
 		case opPush, opPushRaw:
@@ -99,6 +104,12 @@ func (h History) off(seq uint32) uint32 { return seq - h.Base }
 // execution trace
 
 type CB struct {
+	// NestedPush: not a callback but a PushMessage the Stream made from inside the preceding callback
+	NestedPush bool
+	PushID     int
+	PushSeq    uint32
+	PushTyp    uint16
+
 	Lost int      // >0: EventsLost(Lost); otherwise a ReassemblyComplete
 	IsEv bool     // ReassemblyComplete
 	IDs  []int    // message ids (op index of the push) in callback order; -1 = not a pushed message
@@ -121,7 +132,18 @@ type Trace struct {
 type recorder struct {
 	cur   *Step
 	byPtr map[*auparse.AuditMessage]int
+	// re-entrancy
+	r       *libaudit.Reassembler
+	reenter string
+	depth   int
+	nested  int
+	seqs    []uint32 // sequences of the history (for pusheoe)
+	freshLo uint32
+	fresh   uint32
+	used    map[uint32]bool
 }
+
+const nestedIDBase = 1 << 20
 
 func (r *recorder) ReassemblyComplete(msgs []*auparse.AuditMessage) {
 	cb := CB{IsEv: true}
@@ -144,6 +166,33 @@ func (r *recorder) ReassemblyComplete(msgs []*auparse.AuditMessage) {
 		cb.IDs = append(cb.IDs, id)
 	}
 	r.cur.CBs = append(r.cur.CBs, cb)
+	if r.reenter == "" || r.depth > 0 || r.r == nil {
+		return
+	}
+	r.depth++
+	defer func() { r.depth-- }()
+	switch r.reenter {
+	case "maintain":
+		_ = r.r.Maintain()
+	case "pushfresh", "pusheoe":
+		id := nestedIDBase + r.nested
+		r.nested++
+		r.fresh++
+		for r.used[r.freshLo+r.fresh] {
+			r.fresh++
+		}
+		seq, typ := r.freshLo+r.fresh, uint16(1300)
+		if r.reenter == "pusheoe" {
+			if len(r.seqs) == 0 {
+				return
+			}
+			seq, typ = r.seqs[r.nested%len(r.seqs)], eoe
+		}
+		m := &auparse.AuditMessage{RecordType: auparse.AuditMessageType(typ), Sequence: seq, RawData: "nested" + strconv.Itoa(id)}
+		r.byPtr[m] = id
+		r.cur.CBs = append(r.cur.CBs, CB{NestedPush: true, PushID: id, PushSeq: seq, PushTyp: typ})
+		r.r.PushMessage(m)
+	}
 }
 
 func (r *recorder) EventsLost(n int) { r.cur.CBs = append(r.cur.CBs, CB{Lost: n}) }
@@ -169,6 +218,24 @@ func exec(h History) *Trace {
 		return tr
 	}
 	tr.Created = true
+	rec.r, rec.reenter = r, h.Reenter
+	seen := map[uint32]bool{}
+	var hi uint32
+	for _, o := range h.Ops {
+		if isPush(o) && !seen[o.Seq] {
+			seen[o.Seq] = true
+			rec.seqs = append(rec.seqs, o.Seq)
+		}
+		if isPush(o) && o.Seq-h.Base > hi {
+			hi = o.Seq - h.Base
+		}
+	}
+	// fresh sequences: beyond everything the history uses (inside the window for windowed histories)
+	rec.freshLo = h.Base + hi + 1000
+	if !h.Windowed {
+		rec.freshLo = 0x40000000
+	}
+	rec.used = seen
 	for i, o := range h.Ops {
 		st := &tr.Steps[i]
 		rec.cur = st
